@@ -341,12 +341,22 @@ def analyse(ctx, replace=None, only=None):
     P = ctx.program(units, "ship", replace=replace)
     if not R.require(P.fn("aws_xml_node_traverse") is not None, "%s not analysed" % FILE):
         return
-    C04.analyse(ctx, replace=replace, only={"files": [FILE], "rules": ["RECUR", "SUMMARY"], "recur": ("xml",)}, hooks=XmlHooks())
-    balance(R, P)
-    once(R, P)
-    decl(R, P)
-    terminators(R, P)
-    body_view(R, P)
+    want = set(only.get("rules", [])) if only else None
+
+    def on(*rules):
+        return want is None or any(r in want for r in rules)
+    if on("BOUND", "PROGRESS", "RECUR", "REQUIRES", "SUMMARY"):
+        C04.analyse(ctx, replace=replace, only={"files": [FILE], "rules": ["RECUR", "SUMMARY"], "recur": ("xml",)}, hooks=XmlHooks())
+    if on("BALANCE"):
+        balance(R, P)
+    if on("ONCE", "SKIP"):
+        once(R, P)
+    if on("DECL"):
+        decl(R, P)
+    if on("NEST-TERMINATORS"):
+        terminators(R, P)
+    if on("BODY-VIEW"):
+        body_view(R, P)
 
 
 MUTANTS = [
@@ -359,4 +369,4 @@ MUTANTS = [
     {"name": "processed-not-set", "file": FILE, "expect": "SKIP", "old": "    AWS_FATAL_ASSERT(!node->processed && \"XML node can be traversed, or read as body, but not both.\");\n    node->processed = true;\n    return s_advance_to_closing_tag(node->parser, node, out_body);", "new": "    AWS_FATAL_ASSERT(!node->processed && \"XML node can be traversed, or read as body, but not both.\");\n    return s_advance_to_closing_tag(node->parser, node, out_body);"},
 ]
 for _m in MUTANTS:
-    _m.setdefault("scope", None)
+    _m.setdefault("scope", {"rules": [_m["expect"]]})
